@@ -531,4 +531,68 @@ def body_Deserializer_ReadPayload : List String := [
   "return d"
 ]
 
+def body_DecodeHex : List String := [
+  "b,err:=hexutil.Decode(s)",
+  "if err!=nil {",
+  "if ierrors.Is(err,hexutil.ErrEmptyString) {",
+  "return []byte{},nil",
+  "}",
+  "return nil,err",
+  "}",
+  "return b,nil"
+]
+
+def body_DecodeUint256 : List String := [
+  "return hexutil.DecodeBig(s)"
+]
+
+def body_DecodeUint64 : List String := [
+  "return strconv.ParseUint(s,10,64)"
+]
+
+/-- Every type assertion of serializer/serix/map_decode.go (function, operand, asserted type, comma-ok form), in source
+order — the places where the decoder looks at the dynamic type of a decoded JSON value, i.e. the dispatch that
+`Hive/Model/JsonDec.lean` (`dec`) transcribes: `mapVal.(string)` of `mapDecodeBasedOnType` = the cases `big`, `str`, `i64`,
+`u64`; `.(bool)` = `bool`; `.(float64)` = `f64` (signed and unsigned); `mapDecodeFloat` = `flt`; `mapDecodeInterface` =
+`iface` (object, then the number under "type"); `mapDecodeStruct` = `time` (string) and `st` (object, number under "type");
+`mapDecodeBytes` = `pharr` / `hex` / `harr` (object for a type with an object code, then the hex string);
+`mapDecodeMap` = `map`.  The only assertion that is not of the comma-ok form is on the TARGET value (`value.Interface()`),
+directly behind the comma-ok test of the same assertion. -/
+def assertions_map_decode : List (String × String × String × Bool) := [
+  ("mapDecode", "value.Interface()", "DeserializableJSON", true),
+  ("mapDecode", "value.Interface()", "DeserializableJSON", false),
+  ("mapDecode", "value.Addr().Interface()", "DeserializableJSON", true),
+  ("mapDecode", "deserializable", "ContextAwareDeserializable", true),
+  ("mapDecodeBasedOnType", "mapVal", "string", true),
+  ("mapDecodeBasedOnType", "value.Interface()", "ContextAwareDeserializable", true),
+  ("mapDecodeBasedOnType", "value.Interface()", "ContextAwareDeserializable", true),
+  ("mapDecodeBasedOnType", "mapVal", "string", true),
+  ("mapDecodeBasedOnType", "mapVal", "bool", true),
+  ("mapDecodeBasedOnType", "mapVal", "float64", true),
+  ("mapDecodeBasedOnType", "mapVal", "string", true),
+  ("mapDecodeBasedOnType", "mapVal", "float64", true),
+  ("mapDecodeBasedOnType", "mapVal", "string", true),
+  ("mapDecodeFloat", "mapVal", "string", true),
+  ("mapDecodeInterface", "mapVal", "map[string]any", true),
+  ("mapDecodeInterface", "objectCodeAny", "float64", true),
+  ("mapDecodeStruct", "mapVal", "string", true),
+  ("mapDecodeStruct", "mapVal", "map[string]any", true),
+  ("mapDecodeStruct", "mapObjectCode", "float64", true),
+  ("mapDecodeBytes", "mapVal", "map[string]any", true),
+  ("mapDecodeBytes", "mapVal", "string", true),
+  ("mapDecodeMap", "mapVal", "map[string]any", true)
+]
+
+/-- Every `reflect.ValueOf(x)` of map_decode.go: a decoded JSON value wrapped this way and `Set` into the target panics when
+its dynamic type is not the target's.  The two `mapVal` operands of `mapDecodeBasedOnType` follow their checked `.(string)` /
+`.(bool)` assertion; the one of `mapDecodeSlice` is only inspected (`Kind`, `Len`, `Index`) behind its kind test. -/
+def reflectValueOf_map_decode : List (String × String) := [
+  ("mapDecodeBasedOnType", "bigInt"),
+  ("mapDecodeBasedOnType", "mapVal"),
+  ("mapDecodeBasedOnType", "mapVal"),
+  ("mapDecodeNum", "num"),
+  ("mapDecodeStruct", "time.Unix(0,int64(nanoTime)).UTC()"),
+  ("mapDecodeSlice", "mapVal")
+]
+
 end Hive.Spec.DeserFacts
